@@ -820,7 +820,7 @@ def dispatch_part(R, n):
         pn = run_impl(lambda: accessor.convert_file_url_to_pathname(url))
         if pn == ["Crash", "URLError"]:
             pn = ["URLError"]
-        jobs.append(dict(sb=sb, base=base, url=url, opts=opts, res=res, pn=pn, kind=kind, as_gz=as_gz, at_base=(target == base),
+        jobs.append(dict(sb=sb, base=base, url=url, opts=opts, res=res, pn=pn, kind=kind, as_gz=as_gz, at_base=(pn[0] == "ok" and isinstance(pn[1], str) and os.path.normpath(pn[1] or ".") == base),
                          data=data, snap0=snap0, snap1=snapshot(sb)))
     reqs = []
     for j in jobs:
